@@ -490,3 +490,122 @@ Definition C03_collect_shrink_stmt : Prop :=
   collect vd fuel order s2 = Ok h' ->
   exists W', (forall a, GcIso.wa W' a -> GcIso.wa W a /\ GcIso.wf W' a = GcIso.wf W a /\ reach s2 (GcIso.wf W a))
              /\ GcIso.srel W' s1 (VmBase.with_heap s2 h').
+
+(* ================================================================= c03d: the collector on arbitrary worlds *)
+From MW Require Proofs.GcIsoCollect Proofs.GcIsoSched3 Proofs.GcIsoEx3.
+
+(* (a)+(b) reachability is preserved by the renaming.  [nlive W s1] / [held W s1] is the natural
+   liveness closure of the LEFT machine over addresses and payload values (roots: binding keys,
+   %ip.0, %ep, %acc, stack[0..=sp], global slots; edges: every address of a held value, the cell
+   of a live address of W, the payload of a held VVec / VCont / VLambda, the environment of a
+   live cell holding VLexEnv; bytecode positions after JMP / JNT are NOT edges).  Under
+   [gc_natural s2] the renamed image of every live address is reached by the collector on s2,
+   and everything the collector follows from the image of a held value is reached. *)
+Theorem C03_reach_iso : forall W s1 s2, GcIso.srel W s1 s2 -> GcIsoSched2.gc_natural s2 ->
+  (forall a, GcIsoCollect.nlive W s1 a -> GcIso.wa W a -> reach s2 (GcIso.wf W a)) /\
+  (forall v, GcIsoCollect.held W s1 v ->
+     GcIso.vlive W v /\ forall b, vref (st s2) (GcIso.vmap (GcIso.wf W) v) b -> reach s2 b).
+Proof. exact GcIsoCollect.reach_iso. Qed.
+Print Assumptions C03_reach_iso.
+
+(* (c) the world restricted to the closure ([wshrink]: live addresses, held payload ids, same
+   renaming, wtop = %sp) relates s1 to the collected s2 *)
+Theorem C03_collect_shrink_world : forall W s1 s2 vd fuel order h',
+  GcIso.srel W s1 s2 -> GcIsoSched2.gc_natural s2 -> GcIsoSched.reach_allocated s2 ->
+  no_used (hp s2) -> Permutation order (map fst (g_bind s2)) ->
+  collect vd fuel order s2 = Ok h' ->
+  (forall a, GcIso.wa (GcIsoCollect.wshrink W s1) a ->
+     GcIso.wa W a /\ GcIso.wf (GcIsoCollect.wshrink W s1) a = GcIso.wf W a /\ reach s2 (GcIso.wf W a))
+  /\ GcIso.srel (GcIsoCollect.wshrink W s1) s1 (VmBase.with_heap s2 h').
+Proof. intros W s1 s2 vd fuel order h' R G. exact (GcIsoCollect.collect_shrink W s1 s2 R G vd fuel order h'). Qed.
+Print Assumptions C03_collect_shrink_world.
+
+(* the statement left OPEN by c03c *)
+Theorem C03_collect_shrink : forall W s1 s2 vd fuel order h',
+  GcIso.srel W s1 s2 -> GcIsoSched2.gc_natural s2 -> GcIsoSched.reach_allocated s2 ->
+  no_used (hp s2) -> Permutation order (map fst (g_bind s2)) ->
+  collect vd fuel order s2 = Ok h' ->
+  exists W', (forall a, GcIso.wa W' a -> GcIso.wa W a /\ GcIso.wf W' a = GcIso.wf W a /\ reach s2 (GcIso.wf W a))
+             /\ GcIso.srel W' s1 (VmBase.with_heap s2 h').
+Proof.
+  intros W s1 s2 vd fuel order h' R G ND NU P C. exists (GcIsoCollect.wshrink W s1).
+  exact (GcIsoCollect.collect_shrink W s1 s2 R G vd fuel order h' ND NU P C).
+Qed.
+Print Assumptions C03_collect_shrink.
+Theorem C03_collect_shrink_closed : C03_collect_shrink_stmt.
+Proof. exact C03_collect_shrink. Qed.
+Print Assumptions C03_collect_shrink_closed.
+
+(* a real collection keeps [related] *)
+Theorem C03_collects_related : forall s1 s2 s2',
+  GcIsoSched.related s1 s2 -> GcIsoSched2.gc_natural s2 -> GcIsoSched.reach_allocated s2 ->
+  no_used (hp s2) -> GcIsoSched3.collects s2 s2' -> GcIsoSched.related s1 s2'.
+Proof. exact GcIsoSched3.collects_related. Qed.
+Print Assumptions C03_collects_related.
+
+(* (e) the schedule theorem with the REAL collector ([collects]: Gc.collect with any fuels and any
+   order of the binding keys).  The collector hypotheses of C03_sched_unobservable_all are gone;
+   what is assumed instead is an invariant [Nv] of the right machine that implies [gc_ready]
+   (gc_natural, nothing reachable is free, no Used mark, the collection returns Ok) and is kept
+   by run_one and by a collection.  OPEN (d): [Nv := gc_ready] itself is not proved invariant. *)
+Theorem C03_sched_unobservable_natural : forall ob (Nv : vm -> Prop),
+  (forall s, Nv s -> GcIsoSched3.gc_ready s) ->
+  (forall s s', Nv s -> Vm.run_one ob s = VmBase.ROk false s' -> Nv s') ->
+  (forall s s', Nv s -> GcIsoSched3.collects s s' -> Nv s') ->
+  forall sched s1 s2,
+  GcIsoSched.related s1 s2 -> Nv s2 -> GcIsoSched2.plain_ok_all ob (length sched) s1 ->
+  match GcIsoSched.run_plain ob (length sched) s1 with
+  | VmBase.ROk b s1' => exists s2', GcIsoSched.run_sched ob GcIsoSched3.collects sched s2 (VmBase.ROk b s2') /\ GcIsoSched.related s1' s2'
+  | VmBase.RErr e msg s1' => exists s2', GcIsoSched.run_sched ob GcIsoSched3.collects sched s2 (VmBase.RErr e msg s2') /\ GcIsoSched.related s1' s2'
+  | _ => True
+  end.
+Proof. exact GcIsoSched3.sched_unobservable_natural. Qed.
+Print Assumptions C03_sched_unobservable_natural.
+
+(* non-vacuity: cx_vm has two allocated cells, the code object (cell 0, %ip) and '() (cell 1,
+   referenced by nothing).  The world cx_W contains both, so it is not tight.  All hypotheses of
+   C03_collect_shrink hold; the collection frees cell 1; the shrunk world keeps 0 and drops 1. *)
+Example C03_example_shrink : exists h',
+  collect 2 3 [] GcIsoEx3.cx_vm = Ok h' /\ g_get (gcmap h') 1 = GFree /\
+  GcIso.wa GcIsoEx3.cx_W 1 /\ ~ reach GcIsoEx3.cx_vm 1 /\ ~ GcIsoSched.tight GcIsoEx3.cx_W GcIsoEx3.cx_vm /\
+  GcIso.srel (GcIsoCollect.wshrink GcIsoEx3.cx_W GcIsoEx3.cx_vm) GcIsoEx3.cx_vm (VmBase.with_heap GcIsoEx3.cx_vm h') /\
+  ~ GcIso.wa (GcIsoCollect.wshrink GcIsoEx3.cx_W GcIsoEx3.cx_vm) 1 /\
+  GcIso.wa (GcIsoCollect.wshrink GcIsoEx3.cx_W GcIsoEx3.cx_vm) 0.
+Proof. exact GcIsoEx3.cx_example. Qed.
+Example C03_example_shrink_hyps :
+  GcIso.srel GcIsoEx3.cx_W GcIsoEx3.cx_vm GcIsoEx3.cx_vm /\ GcIsoSched2.gc_natural GcIsoEx3.cx_vm /\
+  GcIsoSched3.gc_ready GcIsoEx3.cx_vm.
+Proof. exact (conj GcIsoEx3.cx_srel (conj GcIsoEx3.cx_natural GcIsoEx3.cx_ready)). Qed.
+
+(* a collection keeps the three state conditions of [gc_ready]: gc_natural (no allocated cell
+   appears or changes), nothing reachable is free, no Used mark left *)
+Theorem C03_collects_ready3 : forall s s',
+  GcIsoSched3.ready3 s -> GcIsoSched3.collects s s' -> GcIsoSched3.ready3 s'.
+Proof. exact GcIsoSched3.collects_ready3. Qed.
+Print Assumptions C03_collects_ready3.
+
+(* the schedule theorem with the invariant instantiated: no hypothesis about the collector's
+   effect is left.  Remaining hypotheses, OPEN as facts of the machine: (d) [ready3] is kept by
+   run_one; the marking fuels suffice (a collection of a [ready3] state returns). *)
+Theorem C03_sched_unobservable_ready3 : forall ob,
+  (forall s s', GcIsoSched3.ready3 s -> Vm.run_one ob s = VmBase.ROk false s' -> GcIsoSched3.ready3 s') ->
+  (forall s, GcIsoSched3.ready3 s -> exists s', GcIsoSched3.collects s s') ->
+  forall sched s1 s2,
+  GcIsoSched.related s1 s2 -> GcIsoSched3.ready3 s2 -> GcIsoSched2.plain_ok_all ob (length sched) s1 ->
+  match GcIsoSched.run_plain ob (length sched) s1 with
+  | VmBase.ROk b s1' => exists s2', GcIsoSched.run_sched ob GcIsoSched3.collects sched s2 (VmBase.ROk b s2') /\ GcIsoSched.related s1' s2'
+  | VmBase.RErr e msg s1' => exists s2', GcIsoSched.run_sched ob GcIsoSched3.collects sched s2 (VmBase.RErr e msg s2') /\ GcIsoSched.related s1' s2'
+  | _ => True
+  end.
+Proof. exact GcIsoSched3.sched_unobservable_ready3. Qed.
+Print Assumptions C03_sched_unobservable_ready3.
+
+(* OPEN (c03d): (d) gc_natural / ready3 as an invariant of run_one for the instruction set of
+   [covered_all].  Not proved, and as stated (for EVERY ready3 state) probably too strong:
+   [gc_natural] allows %acc = VPair a d (a cell constructor that compiled code never leaves in a
+   register), and MOV %acc into a global slot then yields a slot that is not [slot_ok].  The
+   invariant to be proved is [ready3] strengthened by what compiled code guarantees; this is why
+   C03_sched_unobservable_natural is parametric in the invariant [Nv]. *)
+Definition C03_ready3_step_stmt (ob : N -> VmBase.M vcell) : Prop :=
+  forall s s', GcIsoSched3.ready3 s -> GcIsoAll.covered_all ob s ->
+    Vm.run_one ob s = VmBase.ROk false s' -> GcIsoSched3.ready3 s'.
